@@ -4,21 +4,56 @@
     [check_constraints], the resample loop [sample_continuous] with explicit
     fuel, the merge of [synthesize_trials]: [synthesize_post]).  The user's
     distribution functions are an arbitrary parameter
-    [gen name attempt trial inputs]; predicates of ContinuousConstraints are
-    arbitrary functions.  Specification side (Out/ContinuousProofs.v, written
-    from the documentation): [skipped], [doc_window], [doc_dep_input],
-    [value_spec], [experiment_ok].
+    [gen name attempt trial inputs] (the stream of draws, indexed by the attempt
+    number); predicates of ContinuousConstraints are arbitrary functions.
+    Specification side (written from the documentation):
+    Out/ContinuousProofs.v [skipped], [doc_window], [doc_dep_input],
+    [value_spec], [experiment_ok]; Out/ContinuousLive.v [attempt] (what one pass
+    of the loop body does with the draws of one attempt: [Accept out] /
+    [Reject] / [Raise e]), [scan], [well_ordered], [constraints_wf];
+    Out/ContinuousDeps.v [recorded], [has_cont].
 
-    SCOPE: safety only.  Whether the resample loop ever returns (liveness)
-    depends on the distribution and is OUT OF SCOPE (partial): the Python loop
-    is unbounded, the model takes fuel, and every statement below has the form
+    SAFETY ([C22_continuous_spec], [C22_window_val_*], [C22_discrete_untouched]):
     "if [synthesize_post] returns [Ok], then ...".
 
-    Also here: what [__check_dependency] guarantees ([C22_dependency_check_partial])
-    and the two statements about it that are false of the model (and of the
-    code): [..._sound_refuted], [..._complete_refuted]. *)
+    LIVENESS RELATIVE TO THE DRAWS ([C22_resample_*], [C22_synthesize_live]).
+    The Python loop of [Block.sample_continuous] is UNBOUNDED: it has a counter
+    and [max_attempts = 10000000], but past that it only prints "exceeds max
+    attempts" (the [raise RuntimeError] is commented out) and keeps sampling; it
+    never raises and never gives up by itself.  So the model's [fuel] is not a
+    feature of the code but the bound of whoever runs it (the harness); the
+    model's [Err OutOfFuel] stands for "still looping after [fuel] attempts", and
+    a genuinely unbounded run is a runtime behaviour the model cannot exhibit.
+    What is proved, for every design and every stream of draws:
+      - the loop is a function of the stream of verdicts alone ([C22_resample_scan]);
+      - if some attempt below the fuel is accepted and no attempt before it
+        raises, the loop returns [Ok] - it does not exhaust the fuel - and what it
+        returns is the FIRST accepted attempt ([C22_resample_live],
+        [C22_resample_first], converse [C22_resample_returns_first]);
+      - it gives up iff every attempt below the fuel was rejected
+        ([C22_resample_none]), and a rejected attempt really violates a
+        constraint at a trial ([C22_reject_sound]);
+      - an attempt that raises before any accepted one ends the loop with that
+        exception ([C22_resample_raise]); on well-ordered designs with well-formed
+        constraints no attempt raises ([C22_attempt_total], [C22_resample_live_wf]).
+    Whether an acceptable attempt exists at all depends on the distribution and
+    the constraints (it is a property of the stream, the hypothesis of the
+    theorems): with an unsatisfiable constraint the Python loop runs forever.
+
+    THE DEPENDENCY CHECK [__check_dependency] of the constructor:
+    [C22_dependency_check_exact] (acceptance <-> every direct continuous
+    dependent is an earlier RECORDED factor: one without dependents or with a
+    continuous dependent of its own), [C22_dependency_check_sound] (an accepted
+    design does not raise while sampling, PROVIDED its windows range over earlier
+    factors - the check never looks into windows), [C22_dependency_check_complete]
+    (designs whose direct continuous dependents are earlier recorded factors are
+    accepted), [C22_dependency_check_rejects_derived] (every design that uses a
+    factor derived only from discrete factors / windows as a direct dependent is
+    rejected, although the documentation allows it), and the two statements that
+    are false of the model and of the code, with witnesses replayed on the code:
+    [..._sound_refuted], [..._complete_refuted]. *)
 From Coq Require Import ZArith List Bool String.
-From SP Require Import Out.Continuous Out.ContinuousProofs.
+From SP Require Import Out.Continuous Out.ContinuousProofs Out.ContinuousLive Out.ContinuousDeps.
 Import ListNotations.
 Open Scope Z_scope.
 
@@ -108,19 +143,207 @@ Theorem C22_discrete_untouched :
 Proof. exact discrete_untouched. Qed.
 Print Assumptions C22_discrete_untouched.
 
-(** What the constructor's [__check_dependency] guarantees: a direct
-    continuous dependent of an accepted design is an earlier factor of the
-    design (or the factor itself after another continuous dependent, which
-    Python cannot construct). *)
-Theorem C22_dependency_check_partial : forall fs pre f post n,
+(** * The resample loop: liveness relative to the stream of draws *)
+
+(** The loop is a function of the stream of verdicts [fun a => attempt ... a]
+    alone: [scan] returns the first attempt that is not rejected. *)
+Theorem C22_resample_scan :
+  forall (gen : string -> nat -> nat -> list input -> val)
+         (T : nat) (trial : dict) (fs : list cfactor) (cs : list bconstraint) (fuel a : nat) (log : list call),
+  (match sample_continuous gen T trial fs cs fuel a log with
+   | Ok (out, a', _) => Ok (out, a')
+   | Err e => Err e
+   end) = scan (attempt gen T trial fs cs) fuel a.
+Proof. exact resample_scan. Qed.
+Print Assumptions C22_resample_scan.
+
+(** Liveness: for every design and draw stream, if some attempt [a + n] with
+    [n < fuel] yields values satisfying every constraint and no earlier attempt
+    raises, the loop returns [Ok] (it does not exhaust the fuel), and it returns
+    the first accepted attempt [a + n0]: everything before it was rejected. *)
+Theorem C22_resample_live :
+  forall (gen : string -> nat -> nat -> list input -> val)
+         (T : nat) (trial : dict) (fs : list cfactor) (cs : list bconstraint) (fuel a : nat) (log : list call),
+  (exists n, (n < fuel)%nat /\ (exists out, attempt gen T trial fs cs (a + n) = Accept out) /\
+             forall m, (m < n)%nat -> forall e, attempt gen T trial fs cs (a + m) <> Raise e) ->
+  exists n0 out log', (n0 < fuel)%nat /\
+    attempt gen T trial fs cs (a + n0) = Accept out /\
+    (forall m, (m < n0)%nat -> attempt gen T trial fs cs (a + m) = Reject) /\
+    sample_continuous gen T trial fs cs fuel a log = Ok (out, S (a + n0), log').
+Proof. exact resample_live. Qed.
+Print Assumptions C22_resample_live.
+
+(** The first accepted attempt is what the loop returns (so the result is a
+    deterministic function of the stream) ... *)
+Theorem C22_resample_first :
+  forall (gen : string -> nat -> nat -> list input -> val)
+         (T : nat) (trial : dict) (fs : list cfactor) (cs : list bconstraint) (fuel a : nat) (log : list call)
+         (n : nat) (out : dict),
+  (n < fuel)%nat ->
+  (forall m, (m < n)%nat -> attempt gen T trial fs cs (a + m) = Reject) ->
+  attempt gen T trial fs cs (a + n) = Accept out ->
+  exists log', sample_continuous gen T trial fs cs fuel a log = Ok (out, S (a + n), log').
+Proof. exact resample_first. Qed.
+Print Assumptions C22_resample_first.
+
+(** ... and whatever the loop returns is the first accepted attempt. *)
+Theorem C22_resample_returns_first :
+  forall (gen : string -> nat -> nat -> list input -> val)
+         (T : nat) (trial : dict) (fs : list cfactor) (cs : list bconstraint) (fuel a : nat) (log : list call)
+         (out : dict) (a' : nat) (log' : list call),
+  sample_continuous gen T trial fs cs fuel a log = Ok (out, a', log') ->
+  exists n, (n < fuel)%nat /\ a' = S (a + n) /\ attempt gen T trial fs cs (a + n) = Accept out /\
+            forall m, (m < n)%nat -> attempt gen T trial fs cs (a + m) = Reject.
+Proof. exact resample_ok_inv. Qed.
+Print Assumptions C22_resample_returns_first.
+
+(** The model gives up iff every attempt below the fuel was rejected: if it
+    returns "none" no attempt below the fuel was acceptable (nor raised). *)
+Theorem C22_resample_none :
+  forall (gen : string -> nat -> nat -> list input -> val)
+         (T : nat) (trial : dict) (fs : list cfactor) (cs : list bconstraint) (fuel a : nat) (log : list call),
+  sample_continuous gen T trial fs cs fuel a log = Err OutOfFuel <->
+  forall m, (m < fuel)%nat -> attempt gen T trial fs cs (a + m) = Reject.
+Proof. exact resample_none. Qed.
+Print Assumptions C22_resample_none.
+
+(** A rejected attempt violates a ContinuousConstraint at some trial of the
+    values it sampled: the loop discards nothing acceptable. *)
+Theorem C22_reject_sound :
+  forall (gen : string -> nat -> nat -> list input -> val)
+         (T : nat) (trial : dict) (fs : list cfactor) (cs : list bconstraint) (a : nat),
+  NoDup (map cf_name fs) ->
+  attempt gen T trial fs cs a = Reject ->
+  exists out log c i, _sample_continuous gen T trial fs a [] = Ok (out, log) /\
+    In c (continuous_constraints cs) /\ (i < T)%nat /\
+    cc_pred c (map (fun n => nth i (getd out n) VNaN) (cc_factors c)) = false.
+Proof. exact reject_sound. Qed.
+Print Assumptions C22_reject_sound.
+
+(** An attempt that raises before any accepted one ends the loop with that
+    exception (as in Python, where it propagates out of [sample_continuous]). *)
+Theorem C22_resample_raise :
+  forall (gen : string -> nat -> nat -> list input -> val)
+         (T : nat) (trial : dict) (fs : list cfactor) (cs : list bconstraint) (fuel a : nat) (log : list call)
+         (n : nat) (e : err),
+  (n < fuel)%nat ->
+  (forall m, (m < n)%nat -> attempt gen T trial fs cs (a + m) = Reject) ->
+  attempt gen T trial fs cs (a + n) = Raise e ->
+  sample_continuous gen T trial fs cs fuel a log = Err e.
+Proof. exact resample_raise. Qed.
+Print Assumptions C22_resample_raise.
+
+(** On a well-ordered design (discrete dependents are columns of the sample,
+    continuous dependents and the factors of non-empty windows are earlier
+    factors) with well-formed constraints (non-empty, over continuous factors of
+    the design) no attempt raises - in cumulative mode as long as the function
+    returns no string. *)
+Theorem C22_attempt_total :
+  forall (gen : string -> nat -> nat -> list input -> val)
+         (T : nat) (trial : dict) (fs : list cfactor) (cs : list bconstraint) (a : nat),
+  NoDup (map cf_name fs) -> well_ordered T trial fs -> constraints_wf fs cs ->
+  (forall f, In f fs -> cf_cumulative f = true -> forall a i inp t, gen (cf_name f) a i inp <> VStr t) ->
+  forall e, attempt gen T trial fs cs a <> Raise e.
+Proof. exact attempt_total. Qed.
+Print Assumptions C22_attempt_total.
+
+(** ... hence on such designs: some acceptable attempt below the fuel ->
+    the loop returns the first acceptable attempt. *)
+Theorem C22_resample_live_wf :
+  forall (gen : string -> nat -> nat -> list input -> val)
+         (T : nat) (trial : dict) (fs : list cfactor) (cs : list bconstraint) (fuel a : nat) (log : list call),
+  NoDup (map cf_name fs) -> well_ordered T trial fs -> constraints_wf fs cs ->
+  (forall f, In f fs -> cf_cumulative f = true -> forall a i inp t, gen (cf_name f) a i inp <> VStr t) ->
+  (exists n out, (n < fuel)%nat /\ attempt gen T trial fs cs (a + n) = Accept out) ->
+  exists n0 out log', (n0 < fuel)%nat /\
+    attempt gen T trial fs cs (a + n0) = Accept out /\
+    (forall m, (m < n0)%nat -> attempt gen T trial fs cs (a + m) = Reject) /\
+    sample_continuous gen T trial fs cs fuel a log = Ok (out, S (a + n0), log').
+Proof. exact resample_live_wf. Qed.
+Print Assumptions C22_resample_live_wf.
+
+(** The continuous part of [synthesize_trials] returns when, for every sampled
+    sequence, every run of [fuel] consecutive attempts holds an accepted one with
+    no raising attempt before it. *)
+Theorem C22_synthesize_live :
+  forall (gen : string -> nat -> nat -> list input -> val)
+         (T : nat) (fs : list cfactor) (cs : list bconstraint) (fuel : nat) (trialss : list dict),
+  (forall tr a0, In tr trialss ->
+     exists n, (n < fuel)%nat /\ (exists out, attempt gen T tr fs cs (a0 + n) = Accept out) /\
+               forall m, (m < n)%nat -> forall e, attempt gen T tr fs cs (a0 + m) <> Raise e) ->
+  exists res log, synthesize_post gen T fs cs fuel trialss = Ok (res, log).
+Proof. exact synth_live. Qed.
+Print Assumptions C22_synthesize_live.
+
+(** * The dependency check of the constructor *)
+
+(** EXACTLY what [__check_dependency] accepts: every direct continuous
+    dependent [n] of every factor is the name of an earlier factor that the check
+    RECORDED - one without dependents, or with a continuous dependent of its own
+    ([recorded]) - or is the factor itself after another continuous dependent
+    (which Python cannot construct). *)
+Theorem C22_dependency_check_exact : forall fs,
+  check_dependency fs = true <->
+  forall pre f post d1 n d2, fs = pre ++ f :: post -> cf_deps f = d1 ++ DCont n :: d2 ->
+    In n (recorded pre) \/ (n = cf_name f /\ has_cont d1 = true).
+Proof. exact dependency_check_exact. Qed.
+Print Assumptions C22_dependency_check_exact.
+
+(** Corollary (the former [C22_dependency_check_partial]): a direct continuous
+    dependent of an accepted design is an earlier factor of the design. *)
+Theorem C22_dependency_check_direct : forall fs pre f post n,
   check_dependency fs = true -> fs = pre ++ f :: post -> In (DCont n) (cf_deps f) ->
   In n (map cf_name pre) \/ n = cf_name f.
 Proof. exact dependency_check_partial. Qed.
-Print Assumptions C22_dependency_check_partial.
+Print Assumptions C22_dependency_check_direct.
+
+(** SOUND up to what it does not look at: an accepted design never raises while
+    sampling and yields [T] values per factor, provided the windows range over
+    earlier factors (and are non-empty), no factor is its own dependent, the
+    discrete dependents are columns of the sampled trials, and cumulative
+    functions return no string. *)
+Theorem C22_dependency_check_sound :
+  forall (gen : string -> nat -> nat -> list input -> val)
+         (T : nat) (trial : dict) (fs : list cfactor) (a : nat) (log : list call),
+  NoDup (map cf_name fs) -> check_dependency fs = true ->
+  (forall pre f post w, fs = pre ++ f :: post -> In (DWin w) (cf_deps f) ->
+     w_factors w <> [] /\ forall g, In g (w_factors w) -> In g (map cf_name pre)) ->
+  (forall f, In f fs -> ~ In (DCont (cf_name f)) (cf_deps f)) ->
+  (forall f n, In f fs -> In (DDisc n) (cf_deps f) -> exists l, get trial n = Some l /\ (T <= List.length l)%nat) ->
+  (forall f, In f fs -> cf_cumulative f = true -> forall a i inp t, gen (cf_name f) a i inp <> VStr t) ->
+  exists out log', _sample_continuous gen T trial fs a log = Ok (out, log') /\
+    forall f, In f fs -> exists vs, get out (cf_name f) = Some vs /\ List.length vs = T.
+Proof. exact dependency_check_sound. Qed.
+Print Assumptions C22_dependency_check_sound.
+
+(** COMPLETE up to "recorded": a design in which every direct continuous
+    dependent is an earlier factor that has no dependents or has a continuous
+    dependent itself is accepted. *)
+Theorem C22_dependency_check_complete : forall fs,
+  (forall pre f post n, fs = pre ++ f :: post -> In (DCont n) (cf_deps f) ->
+     exists g, In g pre /\ cf_name g = n /\ (cf_deps g = [] \/ exists m, In (DCont m) (cf_deps g))) ->
+  check_dependency fs = true.
+Proof. exact dependency_check_complete. Qed.
+Print Assumptions C22_dependency_check_complete.
+
+(** ... and that condition cannot be dropped: EVERY design in which a factor
+    [g] derived only from discrete factors and/or windows is a direct dependent
+    of a later factor is rejected ("dependency g not included in the design"),
+    although [g] is in the design, precedes its user, and the documentation
+    allows any ContinuousFactor of the design as a dependent. *)
+Theorem C22_dependency_check_rejects_derived : forall pre g mid f post,
+  NoDup (map cf_name (pre ++ g :: mid ++ f :: post)) ->
+  cf_deps g <> [] -> (forall m, ~ In (DCont m) (cf_deps g)) ->
+  In (DCont (cf_name g)) (cf_deps f) ->
+  check_dependency (pre ++ g :: mid ++ f :: post) = false.
+Proof. exact dependency_check_rejects_derived. Qed.
+Print Assumptions C22_dependency_check_rejects_derived.
 
 (** Full statement that is FALSE: "an accepted design never raises while
     sampling".  Witness: c1 = f(ContinuousFactorWindow([c0], 2)) declared
-    before c0 (or without c0): accepted, [_sample_continuous] raises KeyError. *)
+    before c0 (or without c0): accepted, [_sample_continuous] raises KeyError.
+    Replayed on the code: CrossBlock([color, c1, c0], [color], [MinimumTrials(4)])
+    is constructed, synthesize_trials raises KeyError('c0'). *)
 Theorem C22_dependency_check_sound_refuted :
   exists fs T trial, NoDup (map cf_name fs) /\ check_dependency fs = true /\
     forall gen a, _sample_continuous gen T trial fs a [] = Err KeyError.
@@ -129,7 +352,9 @@ Print Assumptions C22_dependency_check_sound_refuted.
 
 (** Full statement that is FALSE: "a design whose dependents are all earlier
     factors of the design is accepted".  Witness: c0 = f(color), c1 = g(c0):
-    rejected although sampling it is well defined. *)
+    rejected although sampling it is well defined.  Replayed on the code: the
+    CrossBlock constructor raises RuntimeError("... c1 has dependency c0 not
+    included in the deisgn").  General form: [C22_dependency_check_rejects_derived]. *)
 Theorem C22_dependency_check_complete_refuted :
   exists fs T trial gen, NoDup (map cf_name fs) /\ check_dependency fs = false /\
     exists out log, _sample_continuous gen T trial fs O [] = Ok (out, log).
@@ -144,6 +369,24 @@ Example C22_example_runs :
   ex_fs <> [] /\ NoDup (map cf_name ex_fs) /\
   exists log, synthesize_post ex_gen 3 ex_fs ex_cs 5 ex_trials = Ok (ex_result, log).
 Proof. split; [discriminate|]. split; [exact ex_names_nodup|exact ex_runs]. Qed.
+
+(** The hypotheses of the liveness / totality / dependency theorems hold of the
+    same design: it is well ordered, its constraint is well formed, its functions
+    return no string, the dependency check accepts it (recording rt, total, mix
+    but not diff, which is derived from a window only); on the first sampled
+    sequence attempt 0 is rejected and attempt 1 accepted - so with fuel 5 the
+    loop returns attempt 1. *)
+Example C22_example_live :
+  (forall tr, In tr ex_trials -> well_ordered 3 tr ex_fs) /\ constraints_wf ex_fs ex_cs /\
+  (forall name a i inp t, ex_gen name a i inp <> VStr t) /\
+  check_dependency ex_fs = true /\ recorded ex_fs = ["rt"; "total"; "mix"]%string /\
+  attempt ex_gen 3 (hd [] ex_trials) ex_fs ex_cs 0 = Reject /\
+  exists out, attempt ex_gen 3 (hd [] ex_trials) ex_fs ex_cs 1 = Accept out.
+Proof.
+  split; [exact ex_well_ordered|]. split; [exact ex_constraints_wf|]. split; [exact ex_gen_nostr|].
+  split; [exact (proj1 ex_check_dependency)|]. split; [exact (proj2 ex_check_dependency)|].
+  split; [exact (proj1 ex_attempts)|]. eexists. exact (proj2 ex_attempts).
+Qed.
 
 Example C22_example_window :
   (* width 3, stride 2, start 1 over rt = 10, 11, 12, 13 *)
